@@ -293,7 +293,7 @@ Definition mx_opt (mx : N) : option N := if N.ltb mx umax then Some mx else None
 Fixpoint lowersq (o : op) (r : re) {struct o} : Prop :=
   match o with
   | OAtom cs => unnc r = RSeq (map RChar cs) \/ (exists c, cs = [c] /\ unnc r = RChar c)
-  | OCls set => exists pr, leaf_pred ci fl (unnc r) = Some pr /\ forall c, mem set c = pr c
+  | OCls set => exists pr, leaf_pred ci fl (unnc r) = Some pr /\ forall c, In c input -> mem set c = pr c
   | OBol => unnc r = RBol
   | OEol => unnc r = REol
   | ONothing | OEnd => unnc r = RSeq []
@@ -387,7 +387,7 @@ Proof.
         -- split; [intros []|intros (_ & H2 & _); discriminate].
   - (* Cls *)
     destruct Hl as (pr & Hpr & Hmem). rewrite (leaf_ends input ci fl Hci _ _ _ Hpr). unfold one_char, char_at.
-    destruct (nth_error input p) as [c|]; [|reflexivity]. rewrite Hmem. reflexivity.
+    destruct (nth_error input p) as [c|] eqn:Ec; [|reflexivity]. rewrite (Hmem c (nth_error_In _ _ Ec)). reflexivity.
   - (* Capture *)
     destruct Hl as (r' & Hr & Hl). rewrite Hr in *. destruct Hpl as [Hpl _].
     change (Sem.ends fl input (RGroup g r') p) with (ends r' p). apply IHo; auto.
@@ -507,7 +507,7 @@ Theorem fragmentq_is_match_spec prog input fl o r s :
   p_op prog = make_sequence o OEnd ->
   plainq input (p_case prog) (p_multi prog) (p_hasbackrefs prog) (p_maxparens prog) o ->
   quant_wf r ->
-  lowersq (p_case prog) fl o r -> s_i fl = p_case prog -> s_m fl = p_multi prog ->
+  lowersq input (p_case prog) fl o r -> s_i fl = p_case prog -> s_m fl = p_multi prog ->
   (N.of_nat (length input) < umax)%N ->
   (p_hasbol prog = false /\ p_minlen prog = 0%N /\ p_prefix prog = None /\ p_icc prog = None /\ p_pre prog = []) ->
   length (sb s) = length (eb s) ->
@@ -548,10 +548,10 @@ Proof.
   repeat match goal with |- context [if ?c then _ else _] => destruct c end;
     match goal with |- In _ [] -> _ => intros [] | |- _ => intros [<-|[]]; reflexivity end.
 Qed.
-Example exq_lowers : lowersq false ex_fl exq_op exq_re.
+Example exq_lowers : forall input, lowersq input false ex_fl exq_op exq_re.
 Proof.
-  cbn [lowersq exq_op exq_re unnc]. eexists. split; [reflexivity|]. repeat split.
-  - eexists. split; [reflexivity|]. intros c. cbn. rewrite !orb_false_r. reflexivity.
+  intros input. cbn [lowersq exq_op exq_re unnc]. eexists. split; [reflexivity|]. repeat split.
+  - eexists. split; [reflexivity|]. intros c _. cbn. rewrite !orb_false_r. reflexivity.
   - exists (RChar 120%N), true. split; [reflexivity|]. right. eexists. split; reflexivity.
   - eexists. split; [reflexivity|]. repeat split.
     + right. eexists. split; reflexivity.
